@@ -15,7 +15,7 @@ Core Lean only (the driver links this file).
 -/
 import PsdVerif.Model.Basic
 
-namespace PsdVerif.Tree
+namespace PsdVerif.TreeSt
 open PsdVerif
 
 abbrev Id := Nat
@@ -699,4 +699,4 @@ def State.empty (limit : Nat) : State :=
     psd := fun _ => none, visible := fun _ => true, box := fun _ => BBox.zero, cache := fun _ => none,
     dirty := fun _ => false }
 
-end PsdVerif.Tree
+end PsdVerif.TreeSt
